@@ -20,6 +20,9 @@ CLAIMED['C35'] = ("allow-list decision of parseAllowIps + IPInfo.Match + Namespa
 CLAIMED['C37'] = ("every sequence of k<=5 add/refresh/remove/tick operations on a real TimeWheel (N<=4 buckets, 2 keys, timeouts 1, N, N+1, 2N, 3N+1 ticks) fires each registration once, at tick j+d or j+d+1 after its latest activity, and never after removal",
     "the wheel is driven directly (add/remove/handleTick) in the order its loop calls them; the pipeline channel, time.Sleep loop and tick durations other than 1s are outside the bound")
 
+CLAIMED['C09'] = ("range rule: every int64 key against 1..6 tables with a symbolic rows-per-table limit is placed in exactly its half-open interval or rejected, numeric string keys likewise; calendar rules: the three spellings of the same instant (boundary-rich date list x every second of the day) give the same period index; arbitrary string keys <= 11 bytes never panic",
+    "calendar dates come from a boundary list (first/last day of every month of 8 (quick) / 18 (thorough) years), not every day; proxy time zone fixed to UTC; Parse{Year,Month,Day}Range are not covered yet; acceptance of malformed date strings is recorded as known findings C09-*")
+
 NA_REASON = "check not built yet (work in progress; see DESIGN.md section 3 for the planned harness)"
 NA = {}
 
